@@ -69,7 +69,7 @@ Definition grammar_tags_pin : list (string * string) :=
    ("Expr4.Right", "@@*");
    ("OpExpr5.Operator", "@(""*"" | ""/"")");
    ("OpExpr5.Expr5", "@@");
-   ("Expr5.Operator", "@(""!"")?");
+   ("Expr5.Operator", "@(""!"":Punct)?");
    ("Expr5.Expr6", "@@");
    ("Expr6.Left", "@@");
    ("Expr6.Right", "@@*");
@@ -552,13 +552,9 @@ with up_et (t : ExprTerm) (k : list token) : list token :=
 
 Definition unparse_expr (e : Expression) : list token := up_expression e [].
 
-(* a string (or date text) that is exactly "!" in term position is read as the operator *)
-Definition not_bang_term (t : gterm) : bool :=
-  match t with
-  | GStr s => negb (bytes_eqb s L_bang)
-  | GDate s => negb (bytes_eqb s L_bang)
-  | _ => true
-  end.
+(* the token that Expr5 takes for the negation operator: the literal "!" on a Punct token
+   (tag @("!":Punct)?).  A String token whose unquoted text is "!" is not one. *)
+Definition neg_tok (t : token) : bool := is_lit t L_bang && kind_eqb (tk t) KPunct.
 
 Fixpoint wf_expression (e : Expression) : bool :=
   match e with MkExpression l r => wf_e1 l && wf_o1 r end
@@ -590,7 +586,7 @@ with wf_oe (a : OptExpression) : bool :=
   match a with ENone => true | ESome e => wf_expression e end
 with wf_et (t : ExprTerm) : bool :=
   match t with
-  | ETTerm t => wf_term t && not_bang_term t
+  | ETTerm t => wf_term t
   | ETParen a => wf_oe a
   end.
 
@@ -769,11 +765,26 @@ Lemma parse_expr5_S f ts :
   parse_expr5 (S f) ts =
   match ts with
   | o :: r =>
-      if is_lit o L_bang then pmap (MkExpr5 true) (seq_tail r (parse_expr6 f r))
+      if neg_tok o then pmap (MkExpr5 true) (seq_tail r (parse_expr6 f r))
       else pmap (MkExpr5 false) (seq_tail ts (parse_expr6 f ts))
   | [] => pmap (MkExpr5 false) (seq_tail ts (parse_expr6 f ts))
   end.
 Proof. reflexivity. Qed.
+
+(* no term, and no parenthesis, starts with the negation token: a term token is either of a
+   kind other than Punct (String and DateTime included, whatever their text) or is "[" *)
+Lemma neg_tok_kind t : kind_eqb (tk t) KPunct = false -> neg_tok t = false.
+Proof. intros H. unfold neg_tok. rewrite H. apply andb_false_r. Qed.
+Lemma up_term_head t k : exists o rest, up_term t k = o :: rest /\ neg_tok o = false.
+Proof.
+  destruct t; cbn [up_term]; eexists; eexists; (split; [reflexivity|]);
+    first [apply neg_tok_kind; reflexivity | reflexivity].
+Qed.
+Lemma up_et_head l k : exists o rest, up_et l k = o :: rest /\ neg_tok o = false.
+Proof.
+  destruct l as [t|a]; cbn [up_et]; [apply up_term_head|].
+  eexists; eexists; split; reflexivity.
+Qed.
 Lemma parse_expr6_S f ts :
   parse_expr6 (S f) ts =
   match parse_exprterm f ts with
@@ -881,8 +892,7 @@ Lemma parse_unparse_expr_all :
   (forall a, wf_oe a = true -> forall f k (A : Type) (mk : OptExpression -> A) errpos, (need_oe a <= f)%nat ->
      paren_tail f mk errpos (up_oe a (t_rparen :: k)) = POk (mk a) k) /\
   (forall t, wf_et t = true -> forall f k, (need_et t <= f)%nat ->
-     parse_exprterm f (up_et t k) = POk t k /\ hdp (fun t => negb (is_lit t L_bang)) (up_et t k) = true
-     /\ up_et t k <> []).
+     parse_exprterm f (up_et t k) = POk t k).
 Proof.
   apply expr_mutind.
   - (* Expression *) intros l IHl r IHr Hwf f k Hf Hk. destruct f as [|f]; [cbn in Hf; lia|].
@@ -956,36 +966,18 @@ Proof.
   - (* Expr5 *) intros neg e IHe Hwf f k Hf Hk. destruct f as [|f]; [cbn in Hf; lia|].
     cbn [wf_e5] in Hwf. cbn [need_e5] in Hf. cbn [up_e5]. rewrite parse_expr5_S.
     destruct neg.
-    + change (is_lit t_bang L_bang) with true. cbv iota.
+    + change (neg_tok t_bang) with true. cbv iota.
       rewrite (IHe Hwf) by (try lia; exact Hk). reflexivity.
-    + (* the first token of the operand is not "!" *)
+    + (* the first token of the operand is not the Punct token "!" *)
       destruct e as [l r]. cbn [up_e6].
-      cbn [wf_e6] in Hwf. apply andb_true_iff in Hwf as [Hw1 Hw2].
-      assert (Hhd : hdp (fun t => negb (is_lit t L_bang)) (up_et l (up_o7 r k)) = true
-                    /\ up_et l (up_o7 r k) <> []).
-      { (* from the ExprTerm statement, through the Expr6 induction hypothesis we only have
-           the parse result; re-derive the head fact directly *)
-        clear IHe. destruct l as [t|a].
-        - cbn [wf_et] in Hw1. apply andb_true_iff in Hw1 as [Hwt Hnb].
-          destruct t; cbn [up_et up_term hdp]; (split; [|discriminate]); try reflexivity.
-          + cbn [not_bang_term] in Hnb. exact Hnb.
-          + cbn [not_bang_term] in Hnb. exact Hnb.
-          + cbn [wf_term] in Hwt. apply andb_true_iff in Hwt as [H1 _]. apply Z.leb_le in H1.
-            destruct (dec_of_Z_head z H1) as (c & l0 & Hd & Hc). unfold is_lit. cbn [tx]. rewrite Hd.
-            unfold is_digit in Hc. apply andb_true_iff in Hc as [Hc1 Hc2]. apply N.leb_le in Hc1.
-            cbn [bytes_eqb L_bang]. destruct (N.eqb_spec c 33); [lia|reflexivity].
-          + destruct b; reflexivity.
-        - cbn [up_et]. split; [reflexivity|discriminate]. }
-      destruct Hhd as [Hhd Hne].
-      destruct (up_et l (up_o7 r k)) as [|o rest] eqn:E; [congruence|].
-      cbn [hdp] in Hhd. apply negb_true_iff in Hhd. rewrite Hhd. rewrite <- E.
+      destruct (up_et_head l (up_o7 r k)) as (o & rest & E & Hhd).
+      rewrite E. cbv iota beta. rewrite Hhd. rewrite <- E.
       change (up_et l (up_o7 r k)) with (up_e6 (MkExpr6 l r) k).
-      rewrite (IHe ltac:(cbn [wf_e6]; rewrite Hw1, Hw2; reflexivity)) by (try lia; exact Hk).
-      reflexivity.
+      rewrite (IHe Hwf) by (try lia; exact Hk). reflexivity.
   - (* Expr6 *) intros l IHl r IHr Hwf f k Hf Hk. destruct f as [|f]; [cbn in Hf; lia|].
     cbn [wf_e6] in Hwf. apply andb_true_iff in Hwf as [Hw1 Hw2]. cbn [need_e6] in Hf.
     cbn [up_e6]. rewrite parse_expr6_S.
-    destruct (IHl Hw1 f (up_o7 r k) ltac:(lia)) as [Hp _]. rewrite Hp.
+    rewrite (IHl Hw1 f (up_o7 r k) ltac:(lia)).
     rewrite (IHr Hw2) by (try lia; exact Hk). reflexivity.
   - (* O7Nil *) intros _ f k Hf Hk. destruct f as [|f]; [cbn in Hf; lia|].
     cbn [up_o7]. rewrite loop7_S. destruct k as [|o u']; [reflexivity|].
@@ -1001,20 +993,11 @@ Proof.
   - (* ESome *) intros e IHe Hwf f k A mk errpos Hf. cbn [wf_oe] in Hwf. cbn [need_oe] in Hf.
     apply paren_tail_some. apply (IHe Hwf); [exact Hf|reflexivity].
   - (* ETTerm *) intros t Hwf f k Hf. destruct f as [|f]; [cbn in Hf; lia|].
-    cbn [wf_et] in Hwf. apply andb_true_iff in Hwf as [Hwt Hnb]. cbn [need_et] in Hf.
-    cbn [up_et]. split.
-    + rewrite parse_exprterm_S. rewrite (proj1 parse_unparse_term_all t Hwt) by lia. reflexivity.
-    + destruct t; cbn [up_term hdp]; (split; [|discriminate]); try reflexivity.
-      * exact Hnb.
-      * exact Hnb.
-      * cbn [wf_term] in Hwt. apply andb_true_iff in Hwt as [H1 _]. apply Z.leb_le in H1.
-        destruct (dec_of_Z_head z H1) as (c & l0 & Hd & Hc). unfold is_lit. cbn [tx]. rewrite Hd.
-        unfold is_digit in Hc. apply andb_true_iff in Hc as [Hc1 Hc2]. apply N.leb_le in Hc1.
-        cbn [bytes_eqb L_bang]. destruct (N.eqb_spec c 33); [lia|reflexivity].
-      * destruct b; reflexivity.
+    cbn [wf_et] in Hwf. cbn [need_et] in Hf. cbn [up_et].
+    rewrite parse_exprterm_S. rewrite (proj1 parse_unparse_term_all t Hwf) by lia. reflexivity.
   - (* ETParen *) intros a IHa Hwf f k Hf. destruct f as [|f]; [cbn in Hf; lia|].
-    cbn [wf_et] in Hwf. cbn [need_et] in Hf. cbn [up_et]. split; [|split; [reflexivity|discriminate]].
-    rewrite parse_exprterm_S. destruct f as [|f]; [lia|]. 
+    cbn [wf_et] in Hwf. cbn [need_et] in Hf. cbn [up_et].
+    rewrite parse_exprterm_S. destruct f as [|f]; [lia|].
     change (parse_term (S f) (t_lparen :: up_oe a (t_rparen :: k))) with (@PNone gterm).
     cbv zeta. change (is_lit t_lparen L_lparen) with true. cbv iota.
     apply (IHa Hwf). lia.
@@ -1477,7 +1460,7 @@ Qed.
 Lemma double_bang_e5 f r : not_ok (parse_expr5 f (t_bang :: t_bang :: r)).
 Proof.
   destruct f as [|f]; [intros a s; discriminate|]. rewrite parse_expr5_S.
-  change (is_lit t_bang L_bang) with true. cbv iota.
+  change (neg_tok t_bang) with true. cbv iota.
   apply pmap_not_ok, seq_tail_not_ok, double_bang_e6.
 Qed.
 
@@ -1498,6 +1481,40 @@ Example double_negation_examples :
   parse_check (bs "check if !!true") [] = Err EParse /\
   parse_check (bs "check if ! ! $x") [] = Err EParse /\
   is_ok (parse_check (bs "check if !(!true)") []) = true.
+Proof. vm_compute. repeat split. Qed.
+
+(* the literal of Expr5 is typed: @("!":Punct)?.  The String token whose unquoted text is "!"
+   is a term, not the negation operator (before the typed literal this check was rejected
+   with "unexpected <EOF> expected Expr6") *)
+Example bang_string_parses :
+  parse_check (bs "check if x($a), $a == ""!""") [] =
+  Ok [{| r_head := query_head;
+         r_body := [{| p_name := bs "x"; p_terms := [TA (AVar (bs "a"))] |}];
+         r_exprs := [[OVal (TA (AVar (bs "a"))); OVal (TA (AStr (bs "!"))); OBin BEqual]] |}].
+Proof. vm_compute. reflexivity. Qed.
+
+(* a bare "!" lexes as a Punct token and is still the negation operator *)
+Example bang_still_negates :
+  parse_check (bs "check if !true") [] =
+  Ok [{| r_head := query_head; r_body := []; r_exprs := [[OVal (TA (ABool true)); OUn UNegate]] |}] /\
+  parse_check (bs "check if x($a), !($a == 1)") [] =
+  Ok [{| r_head := query_head;
+         r_body := [{| p_name := bs "x"; p_terms := [TA (AVar (bs "a"))] |}];
+         r_exprs := [[OVal (TA (AVar (bs "a"))); OVal (TA (AInt 1)); OBin BEqual; OUn UParens;
+                      OUn UNegate]] |}] /\
+  (* negation of the string "!" itself: Punct "!" then String "!" *)
+  parse_check (bs "check if !""!""") [] =
+  Ok [{| r_head := query_head; r_body := [];
+         r_exprs := [[OVal (TA (AStr (bs "!"))); OUn UNegate]] |}] /\
+  lex (bs "!""!""") = Ok [t_bang; Tok KString L_bang].
+Proof. vm_compute. repeat split. Qed.
+
+(* the round-trip theorems cover the string "!": it satisfies the side conditions *)
+Example bang_string_wf :
+  let e := MkExpression (MkExpr1 (MkExpr2 (MkExpr3 (MkExpr4 (MkExpr5 false
+             (MkExpr6 (ETTerm (GStr L_bang)) O7Nil)) O5Nil) O4Nil) O3None) O2Nil) O1Nil in
+  wf_expression e = true /\ unparse_expr e = [Tok KString L_bang] /\
+  parse_expr (need_expression e) (unparse_expr e) = POk e [].
 Proof. vm_compute. repeat split. Qed.
 
 (* ---------- conversion errors ---------- *)
@@ -4065,12 +4082,19 @@ Example C15_domain_is_tight :
   reparse (fact_block (TA (ADate 253402300800))) = Err EParse /\
   (* a set whose elements are not in printed order comes back reordered *)
   reparse (fact_block (TSet [AInt 2; AInt 1])) = Ok (fact_block (TSet [AInt 1; AInt 2])) /\
-  reparse (fact_block (TSet [AInt 10; AInt 9])) = Ok (fact_block (TSet [AInt 10; AInt 9])) /\
-  (* the string "!" as a whole expression is read back as the operator *)
-  reparse {| b_facts := []; b_rules := [];
-             b_checks := [[{| r_head := query_head; r_body := []; r_exprs := [[OVal (TA (AStr [33]))]] |}]] |}
-    = Err EParse.
+  reparse (fact_block (TSet [AInt 10; AInt 9])) = Ok (fact_block (TSet [AInt 10; AInt 9])).
 Proof. vm_compute. repeat split. Qed.
+
+(* the string "!" is NOT an exclusion (tag @("!":Punct)?): as a whole expression, as an operand
+   and under a negation it is printed as the String literal and read back as the string *)
+Definition bang_str_block : block :=
+  {| b_facts := []; b_rules := [];
+     b_checks := [[{| r_head := query_head; r_body := [];
+                      r_exprs := [[OVal (TA (AStr [33]))];
+                                  [OVal (TA (AVar (bs "a"))); OVal (TA (AStr [33])); OBin BEqual];
+                                  [OVal (TA (AStr [33])); OUn UNegate]] |}]] |}.
+Example C15_bang_string_roundtrips : reparse bang_str_block = Ok bang_str_block.
+Proof. vm_compute. reflexivity. Qed.
 
 (* ================================================================== *)
 (* lexability of the printers' layouts from per-token conditions        *)
@@ -4895,3 +4919,6 @@ Print Assumptions lay_block_lexable.
 Print Assumptions C15_roundtrip_structural.
 Print Assumptions norm_block_conv.
 Print Assumptions C15_roundtrip_from_grammar.
+Print Assumptions bang_string_parses.
+Print Assumptions bang_still_negates.
+Print Assumptions C15_bang_string_roundtrips.
